@@ -2,7 +2,7 @@
 Delays come from the *model* (connect_interval via the extracted driver), never from the implementation's tables;
 tuple arithmetic is done here (not with mosaik.tiered_time)."""
 from __future__ import annotations
-import collections
+import collections, re
 from . import simlib, tracelib
 
 
@@ -349,6 +349,11 @@ def P_C16(ctx, log, **kw):
             got = {(a, k): v for a, m in l[4].get('e', {}).items() for k, v in m.items() if str(v).startswith('set')}
             if got != pending[sid]:
                 out.append(f'{sid}@{tuple(l[2])}: set_data inputs {got}, expected exactly the values written since its previous step {dict(pending[sid])}')
+            for (a, k), v in got.items():
+                # "in A's next step": the step of A that follows the time t of the agent's step, not A's own step for t
+                m = re.search(r'@(\d+)$', str(v))
+                if m and not l[2][0] > int(m.group(1)):
+                    out.append(f'{sid}@{tuple(l[2])}: receives {v}, written by {k} during its step at time {m.group(1)}: not a later step of {sid}')
             pending[sid] = {}
     for e in ctx.edges:
         if not e['asyn']: continue
